@@ -21,7 +21,15 @@ func init() {
 	vHarnesses["vH_C06_time_alt_pph300"] = vH_C06_time_alt_pph300
 	vHarnesses["vH_C06_cont_flag"] = vH_C06_cont_flag
 	vHarnesses["vH_C06_time_pph1800_start"] = vH_C06_time_pph1800_start
+	vHarnesses["vH_C06_audio_time_pph1800"] = vH_C06_audio_time_pph1800
+	vHarnesses["vH_C06_audio_nr_pph1800"] = vH_C06_audio_nr_pph1800
+	vHarnesses["vH_C06_audio_time_pph450"] = vH_C06_audio_time_pph450
 }
+
+// audio adaptation set: segment boundaries do not coincide with period boundaries
+func vH_C06_audio_time_pph1800() { vC06a(vAsset_testpic_2s(), "V300", 1, 1800, 5, false, false, "A48") }
+func vH_C06_audio_nr_pph1800()   { vC06a(vAsset_testpic_2s(), "V300", 2, 1800, 5, false, false, "A48") }
+func vH_C06_audio_time_pph450()  { vC06a(vAsset_testpic_2s(), "V300", 1, 450, 9, false, false, "A48") }
 
 func vH_C06_time_pph1800_start() { vC06s(vAsset_testpic_2s(), "V300", 1, 1800, 3, false, true) }
 
@@ -63,8 +71,16 @@ func vC06(a *asset, repID string, mode, pph, maxTsbd int, cont bool) {
 
 // withStart: availabilityStartTime is an arbitrary second (start_X); all period quantities are relative to it.
 func vC06s(a *asset, repID string, mode, pph, maxTsbd int, cont, withStart bool) {
+	vC06a(a, repID, mode, pph, maxTsbd, cont, withStart, "")
+}
+
+// audioID != "": the adaptation set under test is the audio one (timeline derived from the video reference).
+func vC06a(a *asset, repID string, mode, pph, maxTsbd int, cont, withStart bool, audioID string) {
 	rep := a.Reps[repID]
 	ts := rep.MediaTimescale
+	if audioID != "" {
+		ts = a.Reps[audioID].MediaTimescale
+	}
 	tsbd := vInt("tsbd", 0, maxTsbd)
 	rel := vInt("rel1", 0, 1<<41)
 	startS := 0
@@ -87,8 +103,14 @@ func vC06s(a *asset, repID string, mode, pph, maxTsbd int, cont, withStart bool)
 		vReach("C06.end-empty")
 		return
 	}
+	if audioID != "" {
+		se = a.generateTimelineEntriesFromRef(se, audioID)
+	}
 	as := &m.AdaptationSetType{}
 	as.ContentType = "video"
+	if audioID != "" {
+		as.ContentType = "audio"
+	}
 	as.SegmentTemplate = &m.SegmentTemplateType{}
 	as.Representations = []*m.RepresentationType{{Id: repID}}
 	var err error
